@@ -147,7 +147,20 @@ fn run_batch(eng: &dyn Engine, seed: u64, quick: bool, from: u64, to: u64, worke
                     if i >= to || i > min_fail.load(Ordering::SeqCst) {
                         break;
                     }
-                    let rep: RunReport = match sched::catch(|| eng.run(seed, i, quick)) {
+                    let outcome = if eng.fresh_thread_per_run() {
+                        // thread-local state a change might introduce must not travel from run to run
+                        std::thread::scope(|s2| {
+                            std::thread::Builder::new()
+                                .stack_size(256 << 20)
+                                .spawn_scoped(s2, || sched::catch(|| eng.run(seed, i, quick)))
+                                .expect("spawn run thread")
+                                .join()
+                                .unwrap_or_else(|_| Err("run thread died".to_string()))
+                        })
+                    } else {
+                        sched::catch(|| eng.run(seed, i, quick))
+                    };
+                    let rep: RunReport = match outcome {
                         Ok(r) => r,
                         Err(p) => {
                             eprintln!("HARNESS-ERROR: engine {} run {} panicked: {}", eng.id(), i, p);
